@@ -5,7 +5,23 @@ import os
 ROOT = os.path.dirname(os.path.dirname(os.path.abspath(__file__)))
 
 # id: (level, technique, text, note, design_ref)
-CLAIMED = {}
+FAKES = ("Trusted base: VLoop reproduces asyncio scheduling (self-test against stock asyncio); Redis and RabbitMQ "
+         "are in-process models of their documented semantics (table-driven self-tests), redis-py / aiormq internals "
+         "are bypassed; clock, uuid and random are owned by the harness.")
+
+CLAIMED = {
+    "C01": ("model_checking", "explicit-state BFS over API histories on the real brokers + cancellation sweep",
+            "Every broker-API history up to the depth bound (2-3 messages, 4 consumers incl. delayed/dead categories, "
+            "4 enqueue timings, clock advances) is executed on the real broker code and compared with a reference "
+            "model after every operation; every distinct (state, operation) pair is additionally cancelled at each "
+            "of its loop iterations and must end in the pre- or post-state.",
+            FAKES + " Bounded: depth 5 (quick) / 6-7 (thorough); states merged on a canonical key.", "DESIGN.md 4 C01"),
+    "C02": ("model_checking", "exhaustive scenario matrix, each cell one deterministic worker run with a broker-call spy",
+            "Full product of 37 actor behaviours x retry budget x attempts x recurring x result storing x both "
+            "converters x three brokers, plus all ordered behaviour pairs run concurrently with a bystander; per "
+            "delivery exactly one terminal broker call of the predicted kind, actor invoked once, final place per model.",
+            FAKES + " cron recurrences excluded (croniter not installed).", "DESIGN.md 4 C02"),
+}
 
 PENDING_REASON = "check not built yet in this revision of /verif (see DESIGN.md section 4 for the plan)"
 
